@@ -2,7 +2,24 @@
 //! complete). Division kernels themselves are out of CBMC's reach (symbolic 64x64 multiplies / divides: minutes to never).
 use crate::sym::*;
 
+fn rposition_contract<const N: usize>() {
+    let a: [u64; N] = any();
+    let n: usize = any();
+    assume(n <= N);
+    let s = &a[..n];
+    match s.iter().rposition(|&x| x != 0) {
+        Some(i) => {
+            assert!(i < n && s[i] != 0, "rposition: index of a non-zero limb");
+            let mut j = i + 1;
+            while j < n { assert!(s[j] == 0, "rposition: everything above is zero"); j += 1; }
+        }
+        None => { let mut j = 0; while j < n { assert!(s[j] == 0, "rposition None: all zero"); j += 1; } }
+    }
+}
+
 crate::harnesses! {
+    // N14 wrapper rposition_nonzero (unit divd): std's Iterator::rposition on slices of length 0..=8 (bounded)
+    #[cfg_attr(kani, kani::unwind(10))] fn c14_rposition_len8() { rposition_contract::<8>() }
     // lemma_lz_facts (unit knuth): x >= 1  ==>  lz < 64  and  2^63 <= x << lz < 2^64 (no bits lost)
     #[cfg_attr(kani, kani::unwind(2))] fn c14_leading_zeros_fact() {
         let x: u64 = any();
